@@ -1263,6 +1263,65 @@ func (rn *runner) phaseSearch(i int, r *rand.Rand) {
 	if i < 3 {
 		c.Sample(map[string]any{"phase": "search", "head_limit": limit, "lines_per_file": fmt.Sprint(clip(fileLines, 40)), "elements": seqStr(es)})
 	}
+	// ---- restart of a long-lived log: the same files under rotation indices around 1000 (indices only
+	// grow over a node's life; old files are pruned), then the WAL is opened again on the directory
+	if len(fileLines) >= 2 && i%2 == 0 {
+		wal.Stop()
+		wal.Wait()
+		shift := []int{996, 998, 999, 1000, 99_995}[r.IntN(5)] - minIdx
+		for idx := maxIdx - 1; idx >= minIdx; idx-- { // rotated files only; the head keeps its name
+			if err := os.Rename(fmt.Sprintf("%s.%03d", walFile, idx), fmt.Sprintf("%s.%03d", walFile, idx+shift)); err != nil {
+				panic(err)
+			}
+		}
+		wal2, err := walm.NewWAL(walFile, maxSize, opts...)
+		if err != nil {
+			panic(err)
+		}
+		wal2.SetLogger(log.NewNoopLogger())
+		ww := cloneMap(w)
+		ww["reopened_with_first_rotated_index"] = minIdx + shift
+		ww["last_rotated_index"] = maxIdx - 1 + shift
+		if err := wal2.Start(); err != nil {
+			viol(c, "reopen-failed", ww, "opening the WAL again on its own directory (rotated files %d..%d) failed: %v", minIdx+shift, maxIdx-1+shift, err)
+			return
+		}
+		defer func() {
+			wal2.Stop()
+			wal2.Wait()
+		}()
+		c.Count("layouts_reopened_high_index", 1)
+		g2 := wal2.Group()
+		if g2.MinIndex() != minIdx+shift || g2.MaxIndex() != maxIdx+shift {
+			viol(c, "reopen-index-range", ww, "after reopening, the group reports indices %d..%d; the directory holds rotated files %d..%d plus the head", g2.MinIndex(), g2.MaxIndex(), minIdx+shift, maxIdx-1+shift)
+			return
+		}
+		gr2, err := g2.NewReader(g2.MinIndex(), 0)
+		if err != nil {
+			viol(c, "reopen-reader", ww, "NewReader after reopen: %v", err)
+			return
+		}
+		outs2, _, pv2 := readAll(gr2, maxSize, true)
+		gr2.Close()
+		if !rn.compareFull("group-after-reopen", outs2, pv2, es, false, ww) {
+			return
+		}
+		for idx, e := range es {
+			if !e.meta {
+				continue
+			}
+			spans := false
+			for j := idx + 1; j < len(es) && !es[j].meta; j++ {
+				if fileOf[j] != fileOf[idx] {
+					spans = true
+				}
+			}
+			nextOtherFile := idx+1 < len(es) && fileOf[idx+1] != fileOf[idx]
+			for mi, opt := range modes {
+				rn.searchOne(wal2, es, idx, opt, modeNames[mi]+"/reopened", maxSize, layoutKey+fmt.Sprint("/shift", shift), nextOtherFile, spans, firstInFile[idx], ww)
+			}
+		}
+	}
 }
 
 func clip(v []int, n int) []int {
